@@ -13,7 +13,7 @@ VARIANTS = [dict(scale=1.0, precision='float64', delay_jitter=0.0),
 def job(j):
     case, v = j['case'], j['variant']
     return linmodel.run_model(case['m'], case['cfg'], scale=v['scale'], precision=v['precision'],
-                              delay_jitter=v['delay_jitter'])
+                              delay_jitter=v['delay_jitter'], form=case['cfg'].get('form', 'nodes'))
 
 
 def run(ctx):
@@ -31,6 +31,7 @@ def run(ctx):
     else:
         exprs = [('euler', 'C09Cases(3, {0, 2, 3, 4}, 8, {"euler"}, {<<1, 1, 2, 2>>, <<1, 2, 3, 3>>})'),
                  ('heun', 'C09Cases(2, {0, 2, 3}, 6, {"heun"}, {<<1, 1, 2, 2>>, <<1, 2, 3, 3>>})')]
+    exprs.append(('pop', 'C09PopCases(%d, {0, 2, 3, 4}, 8, {"euler"}, {<<1, 1, 2, 2>>, <<1, 2, 3, 3>>})' % (2 if tier == 'quick' else 3)))
     cases = []
     for name, e in exprs:
         cases += sc.tlc_cases(ctx, 'C09' + name, e)
